@@ -37,6 +37,8 @@ type SpecEnv struct {
 	quantDepth int
 	ghostSt    *State
 	prev       map[string]SpecVal
+	fallbackPrev func(name string) (SpecVal, bool)
+	fallback   func(name string) (SpecVal, bool) // last resort for an identifier that is not in scope (renamed loop variable)
 }
 
 func (f *Frame) baseEnv(st *State) *SpecEnv {
@@ -235,6 +237,11 @@ func (env *SpecEnv) eval(x ast.Expr) (SpecVal, error) {
 				return env.constOf(o)
 			case *types.Var:
 				return env.globalVar(o)
+			}
+		}
+		if env.fallback != nil {
+			if v, ok := env.fallback(n.Name); ok {
+				return v, nil
 			}
 		}
 		return SpecVal{}, fmt.Errorf("unknown identifier %q", strings.ReplaceAll(n.Name, "ζ", "$"))
@@ -809,6 +816,9 @@ func (env *SpecEnv) callExpr(n *ast.CallExpr) (SpecVal, error) {
 			return SpecVal{}, fmt.Errorf("prev needs a variable name")
 		}
 		v, ok := env.prev[id.Name]
+		if !ok && env.fallbackPrev != nil {
+			v, ok = env.fallbackPrev(id.Name)
+		}
 		if !ok {
 			return SpecVal{}, fmt.Errorf("prev(%s): not a loop-carried variable", id.Name)
 		}
